@@ -12,7 +12,7 @@ from .. import filtgen, gen, monitor
 from ..common import rng_for, split
 
 LEVEL = "exploration"
-TECHNIQUE = "runtime monitor on get_impulse_response: inverse-DFT oracle against get_frequency_response and out-of-support magnitude bounds at widths from the statement's minimum upward"
+TECHNIQUE = "runtime monitor on get_impulse_response: inverse-DFT oracle against get_frequency_response and out-of-support magnitude bounds at widths from the statement's minimum upward; ambient-settings monitor (stateless calls repeated under -W error and np.errstate raise)"
 RULE = (
     "triples (bank, filter, width): triangular / Fbank / Gabor banks with every flag and gammatone banks of order 3-8 without L2 scaling (max_centered "
     "and erb free), first/last/random filter, widths W0, W0+1 and a random width in (W0, 4 W0] with W0 = max(temporal support, ceil(2 rate / bandwidth)) "
